@@ -8,7 +8,15 @@ sys.path.insert(0, os.path.join(os.environ.get("VERIF_REPO", "/repo"), "src"))
 
 
 def main():
-    from pydsol.core.streams import MersenneTwister, SimpleStreamUpdater, StreamSeedUpdater
+    from pydsol.core.streams import MersenneTwister, SimpleStreamUpdater, StreamSeedUpdater, StreamUpdater
+
+    class Custom(StreamUpdater):
+        """user-written fallback: seed = 7 * original + 13 * r + len(name)"""
+
+        def update_seed(self, key, stream, replication_nr):
+            stream.set_seed(7 * stream.original_seed() + 13 * replication_nr + len(key))
+
+    shared = SimpleStreamUpdater()        # one object for the whole process: what it served before must not matter
     cfgs = json.load(open(sys.argv[1]))
     child = sys.argv[2]
     out = []
@@ -17,7 +25,17 @@ def main():
         origs = {n: int(s) for n, s in c["origs"].items()}
         table = {n: [int(x) for x in v] for n, v in c["table"].items()}
         streams = {n: MersenneTwister(origs[n]) for n in names}
-        upd = SimpleStreamUpdater() if c["u"] == "simple" else StreamSeedUpdater(dict(table))
+        table2 = {n: [int(x) for x in v] for n, v in c.get("table2", {}).items()}
+        if c["u"] == "simple":
+            upd = SimpleStreamUpdater()
+        elif c["u"] == "shared":
+            upd = shared
+        else:
+            upd = StreamSeedUpdater(dict(table))
+            if c["u"] == "chained":
+                upd.set_fallback_stream_updater(StreamSeedUpdater(dict(table2)))
+            elif c["u"] == "custom":
+                upd.set_fallback_stream_updater(Custom())
         r = {"negative": -1, "first": 0, "inside": 1, "last": 2, "beyond": 3, "far": 10 ** 6, "illtyped": 1.5}[c["rc"]]
         for n in names:
             st = streams[n]
@@ -39,8 +57,20 @@ def main():
             except Exception as ex:
                 res = type(ex).__name__
             after = [st.next_float().hex(), st.next_float().hex()]
-            listed = "listed" if n in table else "unlisted"
-            want = str(table[n][r]) if (n in table and isinstance(r, int) and 0 <= r < len(table[n])) else ""
+            tabled = c["u"] in ("table", "chained", "custom")
+            if tabled and n in table:
+                listed = "listed" if table[n] else "empty"
+                src = table[n]
+            elif c["u"] == "chained" and n in table2:
+                listed, src = "fb_listed", table2[n]
+            else:
+                listed, src = "unlisted", None
+            if src is not None:
+                want = str(src[r]) if (isinstance(r, int) and 0 <= r < len(src)) else ""
+            elif c["u"] == "custom" and isinstance(r, int) and r >= 0:
+                want = str(7 * origs[n] + 13 * r + len(n))
+            else:
+                want = ""
             out.append({"a": "Update", "child": child, "u": c["u"], "l": listed, "rc": c["rc"], "name": n, "orig": str(origs[n]),
                         "r": str(r), "res": res, "seed_before": before_seed, "seed_after": str(st.seed()),
                         "draws_before_peek": "|".join(peek), "draws_after": "|".join(after), "want_from_list": want})
